@@ -1,10 +1,11 @@
 import Oracle.Proto
 import Oracle.ActorSys
-/-! Oracle suites of property C03 (the Layer-2 actor-system model, shared with C04, C05, C06). -/
+/-! Oracle suites of property C03 (the Layer-2 actor-system model is shared by C03–C06). -/
 namespace Oracle.C03
 
 def suites : List (String × Suite) := [
-  ("actorsys", Oracle.ActorSys.model)
+  ("actorsys", Oracle.ActorSys.model),
+  ("actorsys-judge", Oracle.ActorSys.judgeC03)
 ]
 
 end Oracle.C03
